@@ -18,7 +18,8 @@ RULE = ('programs = LUAGEN model trees laid out one statement per line (blocks b
         'ends in a blank, no two consecutive blank lines, no blank or whitespace-only line at the end. Non-trivial = '
         'nesting depth >= 2 and at least one blank-line run or comment line; distinct by (source, width).'
         " Layouts include runs of 9-14 comment lines and multi-line block comments on their own lines (with the layout's LF or CRLF line ends); only lines inside multi-line STRING literals are exempt from the no-trailing-whitespace clause; sources without multi-line strings are also formatted with the other line-end style (LF <-> CRLF) and must give the same output."
-        ' Part "deep": 17-70 nested blocks of every kind with table/call brackets at the bottom, indent widths 1-8 (indentation up to 560 columns).')
+        ' Part "deep": 17-70 nested blocks of every kind with table/call brackets at the bottom, indent widths 1-8 (indentation up to 560 columns).'
+        ' (e) for a quarter of the programs and all fixed shapes, `p8tool luafmt --indentwidth N` on a .p8 cart must write the code the library writer gives for width N (N = 0..8; the option is omitted for N = 2).')
 ASSUMPTIONS = ['the indentation of comment-only lines is not asserted by (c) (the property constrains lines beginning '
                'with a code token); the inner spacing of a line is never changed by the re-indent transform',
                'lexical rules are represented by vlib/reflex.py']
@@ -81,11 +82,29 @@ def reindent(src, ch):
     return b'\n'.join(out)
 
 
+def check_cli(src, width, out, case):
+    """(e) the command line applies the same width: `p8tool luafmt --indentwidth N cart.p8` writes the code the library
+    writer produces for that width (up to the final line end the .p8 format supplies)."""
+    from checks import c09
+    got, err, _untouched = c09.cli_luafmt(src, width, False, case)
+    if got is None:
+        raise Violation('`p8tool luafmt --indentwidth %d` failed (%r) on a valid program -- %s' % (width, err, show(src, 200)),
+                        case, 'cli-fails')
+    if got.rstrip(b'\n') != out.rstrip(b'\n'):
+        i = next((i for i in range(min(len(out), len(got))) if out[i] != got[i]), min(len(out), len(got)))
+        raise Violation('`p8tool luafmt --indentwidth %d` writes other code than the formatter gives for width %d: at byte '
+                        '%d %s (command line) vs %s (library) -- input %s'
+                        % (width, width, i, show(got[max(0, i - 30):i + 30], 80), show(out[max(0, i - 30):i + 30], 80),
+                           show(src, 160)), case, 'cli-width')
+
+
 def check(src, width, kept, case, src2=None):
     try:
         out = fmt(src, width)
     except Exception as e:
         raise Violation('luafmt raised %r on a valid program -- %s' % (e, show(src, 200)), case, 'raises')
+    if case.get('cli') and b'\r' not in src:
+        check_cli(src, width, out, case)
     # (b) idempotence
     try:
         out2 = fmt(out, width)
@@ -207,10 +226,12 @@ def part_lines(ctx):
         if ref2 is None or [t.text for t in reflex.significant(ref2)] != [t.text for t in lay.kept]:
             ctx.stats.exclude('reindent_changed_tokens')
             src2 = None
-        case = {'source': src, 'width': width, 'source2': src2, 'seed': bytes(seed)}
+        case = {'source': src, 'width': width, 'source2': src2, 'seed': bytes(seed), 'cli': seed[-2] % 4 == 0}
         check(src, width, lay.kept, case, src2)
         depth = max([t.depth for t in lay.kept] + [0])
         labs = ['width_%d' % width]
+        if case['cli'] and b'\r' not in src:
+            labs.append('cli_width_%d' % width)
         has_blank = b'\n\n' in src.replace(b'\r', b'').replace(b' ', b'').replace(b'\t', b'')
         if has_blank:
             labs.append('blank_line_run')
@@ -301,7 +322,7 @@ FIXED = [
 def part_fixed(ctx):
     for src in FIXED:
         for width in (0, 1, 2, 4, 8):
-            case = {'source': src, 'width': width, 'source2': None}
+            case = {'source': src, 'width': width, 'source2': None, 'cli': True}
             ch = Choices(src[:16] + bytes((width,)))
             src2 = reindent(src, ch)
             check(src, width, None, dict(case, source2=src2), src2)
@@ -331,7 +352,7 @@ def replay(case):
 
 def vacuity(total, tier):
     msgs = []
-    for lab in ('blank_line_run', 'comments', 'slash_comment', 'multi_line_comment', 'comments>=9', 'depth>=2', 'short_if_or_print', 'width_0', 'width_8',
+    for lab in ('blank_line_run', 'comments', 'slash_comment', 'multi_line_comment', 'comments>=9', 'depth>=2', 'short_if_or_print', 'width_0', 'width_8', 'cli_width_0', 'cli_width_2', 'cli_width_8',
                 'fixed_shape', 'indent>128_columns'):
         if total.classes.get(lab, 0) < 5:
             msgs.append('class %s seen %d times' % (lab, total.classes.get(lab, 0)))
